@@ -1,6 +1,56 @@
-"""C13, file part: write(rate(m)) read back gives the rated timeline (filled in once the reference
-readers of C01/C03/C05/C06 exist)."""
+"""C13, file part: writing the rated chart and interpreting the file gives the rated timeline."""
+from __future__ import annotations
+
+from fractions import Fraction as F
+from functools import partial
+
+from symx.run import Obligation
+from .common import same_multiset, cell_same
+from .c09 import Spec
+from .memcharts import mem_chart, written, WRITABLE
+
+
+def ob_rated_file(game, keys, variant, rconc, ctx):
+    sp = Spec(ctx, keys, variant, zero_start=game == "bms")
+    m = mem_chart(ctx, sp, game)
+    if rconc is None:
+        r = ctx.real("r")
+        ctx.assume(r > 0)
+    else:
+        r = F(rconc)
+    out = m.rate(r)
+    w = written(ctx, game, out)
+    ctx.check("rated-file.well-formed", not w["ill"], note="%r" % (w["ill"][:2],))
+    if w["kind"] == "ms":
+        for bound, tag in ((1, "within-1ms"), (F(1001, 1000), "within-1.001ms")):
+            eq = lambda a, b, bound=bound: ctx.all(a[0] == b[0], *[ctx.within(x * r, y, bound * r) for x, y in zip(a[1:], b[1:])])
+            ctx.check("rated-file.hits.times-divided-by-r-" + tag, same_multiset(ctx, w["hits"], [(c, sp.t(p)) for c, p in sp.hits], eq=eq))
+            ctx.check("rated-file.holds.times-divided-by-r-" + tag, same_multiset(ctx, w["holds"], [(c, sp.t(p), sp.t(e)) for c, p, e in sp.holds], eq=eq))
+        teq = lambda a, b: ctx.all(ctx.within(a[0] * r, b[0], r), ctx.eq(a[1], b[1] * r))
+        ctx.check("rated-file.tempo.time-divided-bpm-multiplied", same_multiset(ctx, w["tempo"], [(sp.t(sp.tb[i]), sp.bpm(i)) for i in range(2)], eq=teq))
+        if game == "osu":
+            seq = lambda a, b: ctx.all(ctx.within(a[0] * r, b[0], r), a[1] == b[1])
+            ctx.check("rated-file.sample-events.times-divided-by-r", same_multiset(ctx, w["samples"], [(sp.t(F(3)), "e.wav"), (sp.t(F(1)), "f.wav")], eq=seq))
+            ctx.check("rated-file.preview-point-divided-by-r", ctx.within(w["extra"]["preview"] * r, 1234, r))
+    else:
+        ctx.check("rated-file.hits.same-beats", sorted(w["hits"]) == sorted(sp.hits), note="%r" % (w["hits"][:3],))
+        ctx.check("rated-file.holds.same-beats", sorted(w["holds"]) == sorted(sp.holds))
+        ctx.check("rated-file.tempo.same-beats", [b for b, _v in w["tempo"]] == sp.tb, note="%r" % ([b for b, _v in w["tempo"]],))
+        tol = F(5001, 10**7) if game == "bms" else 0
+        ctx.check("rated-file.tempo.bpm-multiplied", ctx.all(*[ctx.within(v, sp.bpm(i) * r, tol, strict=False) for i, (_b, v) in enumerate(w["tempo"])]) if len(w["tempo"]) == 2 else False)
+        if game == "sm":
+            ctx.check("rated-file.offset-divided-by-r", ctx.close(w["offset_ms"] * r, sp.T0) if not isinstance(sp.T0, int) else ctx.eq(w["offset_ms"], 0))
+            ctx.check("rated-file.sample-window-divided-by-r", ctx.all(ctx.close(w["extra"]["sample_start"] * 1000 * r, 1500), ctx.close(w["extra"]["sample_length"] * 1000 * r, 10000)))
 
 
 def obligations(tier, seed):
-    return []
+    quick = tier == "quick"
+    obs = []
+    for g in WRITABLE:
+        for keys, variant in ((4, "a"), (7, "b")) if quick else ((4, "a"), (4, "b"), (7, "a"), (7, "c")):
+            rs = [None] if g in ("sm", "bms") else ["1/2", "3/2", "11/10"]
+            for rc in rs:
+                obs.append(Obligation("C13/file/%s/K%d/%s/r=%s" % (g, keys, variant, rc or "sym"), partial(ob_rated_file, g, keys, variant, rc),
+                                      bound="%s chart (%d keys, variant %s) on the beat grid with symbolic beat lengths and start time, rate %s, written and interpreted by the reference reader"
+                                            % (g, keys, variant, "symbolic r>0" if rc is None else rc), max_paths=3000, timeout_s=300))
+    return obs
